@@ -285,14 +285,14 @@ func summary(id, tier string, results []*JobResult, r *Runner, wall time.Duratio
 		if i >= 3 || jr.Paths < 1000 {
 			break
 		}
-		fmt.Printf("  biggest job %s paths=%d\n", jr.Job.ID(), jr.Paths)
+		fmt.Printf("  biggest job %s paths=%d\n", trunc(jr.Job.ID(), 160), jr.Paths)
 	}
 	sort.Slice(top, func(i, j int) bool { return top[i].Wall > top[j].Wall })
 	for i, jr := range top {
 		if i >= 5 || jr.Wall < 5*time.Second {
 			break
 		}
-		fmt.Printf("  slowest job %s paths=%d cpu_s=%.1f\n", jr.Job.ID(), jr.Paths, jr.Wall.Seconds())
+		fmt.Printf("  slowest job %s paths=%d cpu_s=%.1f\n", trunc(jr.Job.ID(), 160), jr.Paths, jr.Wall.Seconds())
 	}
 	keys := sortedKeys(ends)
 	sort.Slice(keys, func(i, j int) bool { return ends[keys[i]] > ends[keys[j]] })
@@ -498,4 +498,11 @@ func cmdReplay(args []string) int {
 		return 1
 	}
 	return 0
+}
+
+func trunc(s string, n int) string {
+	if len(s) <= n {
+		return s
+	}
+	return s[:n/2] + " ... " + s[len(s)-n/2:]
 }
